@@ -40,7 +40,10 @@ macro_rules! function_head {
 macro_rules! args {
     ($args:ident, $($aname:ident),+) => {
         let mut iter = $args.into_iter();
-        $(let $aname = iter.next().unwrap();)+
+        $(let $aname = match iter.next() {
+            Some(x) => x,
+            None => bail!("missing argument: {}", stringify!($aname)),
+        };)+
     };
     ($args:ident, ctx=$ctx:ident, $($aname:ident),+) => {
         args!($args, ctx=$ctx, opts=expand, $($aname),+);
@@ -48,13 +51,19 @@ macro_rules! args {
     ($args:ident, ctx=$ctx:ident, opts=expand, $($aname:ident),+) => {
         let mut iter = $args.into_iter();
         $(
-            let $aname = iter.next().unwrap().real_value_of($ctx.clone())?;
+            let $aname = match iter.next() {
+                Some(x) => x.real_value_of($ctx.clone())?,
+                None => bail!("missing argument: {}", stringify!($aname)),
+            };
         )+
     };
     ($args:ident, ctx=$ctx:ident, opts=raw, $($aname:ident),+) => {
         let mut iter = $args.into_iter();
         $(
-            let $aname = iter.next().unwrap();
+            let $aname = match iter.next() {
+                Some(x) => x,
+                None => bail!("missing argument: {}", stringify!($aname)),
+            };
         )+
     };
 }
